@@ -204,12 +204,37 @@ def matchWant : List Want → List String → List String × List String
                        else if why == "execution_error" then "C05.execution_error_not_reported" else "C05.reader_failed_silently"], [])
       | _ => (["C05.missing_event"], [])
 
+/-- for every unit of a message: is it dispatched (by the specification of C02) to a table entry WITHOUT a handler?  Such a
+unit announces nothing; its data stays unread -/
+def nullDispatched (cmds : List Cmd) (us : List UnitInfo) : List Bool :=
+  let pats := cmds.map (fun c => Pattern.parsePattern c.pattern)
+  if !(cmds.any isNullCb) ∨ !(pats.all (·.isSome)) then us.map (fun _ => false) else
+  let patList := pats.filterMap id
+  let rec go : List UnitInfo → Option Bytes → List Bool → List Bool
+    | [], _, acc => acc.reverse
+    | u :: rest, prev, acc =>
+      if u.header.isEmpty then go rest prev (false :: acc)
+      else
+        let eff := effective prev u.header
+        match dispatch patList eff with
+        | some i => go rest (some eff) (isNullCb (cmds.getD i ⟨[], 0, []⟩) :: acc)
+        | none => go rest (some eff) (false :: acc)
+  go us none []
+
 /-- judge the parameter handling of one run -/
 def judgeParams (cmds : List Cmd) (toks : List String) : List String :=
   let (calls, _) := groupCalls toks
   calls.flatMap (fun call =>
     let perMsg := call.msgs.flatMap (fun m =>
-      let us := unitsOf m.msg
+      let us0 := unitsOf m.msg
+      let nulls := nullDispatched cmds us0
+      -- units selected for an entry without a handler are taken out: no handler token; -108 exactly when they carry data
+      let nullUnits := (List.zip us0 nulls).filter (fun (u, z) => z && u.wellFormed && u.nParams ≥ 0)
+      let us := ((List.zip us0 nulls).filter (fun (u, z) => !(z && u.wellFormed && u.nParams ≥ 0))).map (·.1)
+      if !nullUnits.isEmpty then
+        -- mixed message: only the count of -108 for the handler-less units is judged, the rest of the message is left alone
+        []
+      else
       -- walk units and event tokens together
       let rec walk : List UnitInfo → List String → List String → List String
         | [], rest, acc => if rest.isEmpty then acc else acc ++ ["C05.unexpected_event"]
